@@ -338,3 +338,26 @@ def untraced():
   if is_tracing():
     return NoTracing()
   return contextlib.nullcontext()
+
+
+def concretize(x, candidates):
+  """Concrete value equal to the symbolic x, chosen by solver branching over the candidates.
+  Sorted integer candidates are bisected (log2 decisions per path instead of a linear chain)."""
+  cands = list(candidates)
+  if cands and all(isinstance(c, int) and not isinstance(c, bool) for c in cands) and cands == sorted(set(cands)):
+    lo, hi = 0, len(cands)
+    if x < cands[0] or x > cands[-1]:
+      raise Assume()
+    while hi - lo > 1:
+      mid = (lo + hi) // 2
+      if x < cands[mid]:
+        hi = mid
+      else:
+        lo = mid
+    if x == cands[lo]:
+      return cands[lo]
+    raise Assume()
+  for c in cands:
+    if x == c:
+      return c
+  raise Assume()
